@@ -23,6 +23,7 @@ import (
 	"strconv"
 	"strings"
 	"sync"
+	"sync/atomic"
 	"testing"
 	"testing/synctest"
 	"time"
@@ -335,7 +336,8 @@ type world struct {
 	runCtx  context.Context
 	cancel  context.CancelFunc
 	runDone chan struct{}
-	dead    bool
+	dead    atomic.Bool // set by whichever goroutine sees the processor die
+	stepMu  sync.Mutex
 
 	lockC     chan *common.MessagePublication
 	setC      chan *common.GuardianSet
@@ -350,7 +352,7 @@ type world struct {
 	out      [][]byte
 	stopDr   chan struct{}
 	parked   []*gossipv1.SignedObservation
-	panicked *simkit.Violation
+	panicked atomic.Pointer[simkit.Violation]
 
 	// model
 	sets     []*setDef // history in order of set steps
@@ -518,8 +520,11 @@ func (w *world) recordPanic(r interface{}, stack []byte) {
 			break
 		}
 	}
-	w.dead = true
-	w.panicked = &simkit.Violation{Prop: "C13", Key: "panic@" + fn, Step: w.stepIdx, Detail: fmt.Sprintf("panic: %v (step %s)", r, w.curStep)}
+	w.dead.Store(true)
+	w.stepMu.Lock()
+	idx, cur := w.stepIdx, w.curStep
+	w.stepMu.Unlock()
+	w.panicked.Store(&simkit.Violation{Prop: "C13", Key: "panic@" + fn, Step: idx, Detail: fmt.Sprintf("panic: %v (step %s)", r, cur)})
 }
 
 // ---------------------------------------------------------------------------------------------
@@ -573,7 +578,8 @@ func (w *world) hbDump() string {
 	}()
 	synctest.Wait()
 	if !done {
-		w.dead, w.stalled = true, true
+		w.dead.Store(true)
+		w.stalled = true
 		w.violate("C13", "guardian-set-state-locked-forever", "after step %s the guardian-set state can no longer be read: its lock is held by nobody who will release it, the next guardian-set update blocks the processor for good", w.curStep)
 		return "hb=? (locked)"
 	}
@@ -737,7 +743,7 @@ func (w *world) guard(f func()) {
 	}()
 	synctest.Wait()
 	if !done {
-		w.dead = true
+		w.dead.Store(true)
 		w.stalled = true
 		w.violate("C17", "processor-stalled-in-handler", "the processor did not return from step %s: it is blocked (outbound request queue capacity %d)", w.curStep, w.reqCap)
 		w.violate("C13", "processor-stalled-in-handler", "the processor did not return from step %s and processes no further input (inbound queue %d/%d, outbound request queue capacity %d)", w.curStep, len(w.obsvC), cap(w.obsvC), w.reqCap)
@@ -761,8 +767,10 @@ func (w *world) applicable(m *digestModel) *setDef {
 }
 
 func (w *world) runStep(i int, st simkit.Step) {
+	w.stepMu.Lock()
 	w.stepIdx = i
 	w.curStep = st
+	w.stepMu.Unlock()
 	before := ""
 	if st.Op == "obs" {
 		before = w.stateDump()
@@ -854,7 +862,7 @@ func (w *world) runStep(i int, st simkit.Step) {
 		if !w.dbDown {
 			if err := storeInner(w.db).Close(); err != nil {
 				w.res.HarnessErr = "dbdown: " + err.Error()
-				w.dead = true
+				w.dead.Store(true)
 				return
 			}
 			w.dbDown = true
@@ -865,7 +873,7 @@ func (w *world) runStep(i int, st simkit.Step) {
 			bdb, err := badger.Open(badger.DefaultOptions(w.dir).WithNumCompactors(0).WithLogger(nil))
 			if err != nil {
 				w.res.HarnessErr = "dbup: " + err.Error()
-				w.dead = true
+				w.dead.Store(true)
 				return
 			}
 			setStoreInner(w.db, bdb)
@@ -874,7 +882,7 @@ func (w *world) runStep(i int, st simkit.Step) {
 	case "hb":
 		// the gossip side stores a verified heartbeat in the guardian-set state it shares with the
 		// processor (A: guardian key, B: peer). More than the per-guardian cap of peers is refused.
-		if w.p == nil || w.dead || raceBuild {
+		if w.p == nil || w.dead.Load() || raceBuild {
 			// (the race-detector build keeps the real mutex, on which a blocked goroutine would hang the
 			// bubble instead of being seen as stalled)
 			break
@@ -887,7 +895,7 @@ func (w *world) runStep(i int, st simkit.Step) {
 	case "rerun":
 		// the supervisor cancels the processor's runnable and schedules it again: Run is entered a
 		// second time on the same Processor (loop mode; the handlers have no such notion)
-		if !w.loop || w.stalled || w.dead || w.cancel == nil {
+		if !w.loop || w.stalled || w.dead.Load() || w.cancel == nil {
 			break
 		}
 		w.cancel()
@@ -908,7 +916,7 @@ func (w *world) runStep(i int, st simkit.Step) {
 		dbn, err := openStore(w.dir)
 		if err != nil {
 			w.res.HarnessErr = "reopen: " + err.Error()
-			w.dead = true
+			w.dead.Store(true)
 			return
 		}
 		w.db = dbn
@@ -1167,7 +1175,7 @@ func (w *world) buildInbound(st simkit.Step) []byte {
 func (w *world) afterStep(st simkit.Step, before, obsHash string, obsAcceptable bool) {
 	w.deliveryStep = st.Op == "obs" || (st.Op == "loop" && obsHash != "")
 	o := w.collect()
-	if w.panicked != nil {
+	if w.panicked.Load() != nil {
 		return
 	}
 	changes := w.storeDiff()
@@ -1493,7 +1501,7 @@ func (w *world) doTicks(st simkit.Step) {
 	if dt > w.maxDt {
 		w.maxDt = dt
 	}
-	for k := 0; k < n && !w.dead; k++ {
+	for k := 0; k < n && !w.dead.Load(); k++ {
 		time.Sleep(dt)
 		if !w.loop {
 			w.guard(func() { w.p.handleCleanup(w.hctx) })
@@ -1503,11 +1511,11 @@ func (w *world) doTicks(st simkit.Step) {
 				w.guard(func() { w.setC <- cur })
 			}
 		}
-		if w.dead {
+		if w.dead.Load() {
 			return
 		}
 		o := w.collect()
-		if w.panicked != nil {
+		if w.panicked.Load() != nil {
 			return
 		}
 		changes := w.storeDiff()
@@ -1812,24 +1820,24 @@ func (h procHarness) execOnce(p *simkit.Program) (*simkit.Result, *world) {
 		w.db = d
 		w.newProcessor()
 		for i, st := range p.Steps {
-			if w.dead {
+			if w.dead.Load() {
 				break
 			}
 			w.runStep(i, st)
-			if w.panicked != nil {
+			if w.panicked.Load() != nil {
 				break
 			}
 		}
-		if w.panicked != nil {
-			res.Violations = append(res.Violations, *w.panicked)
-			w.log.Add("PANIC %s", w.panicked.Key)
+		if w.panicked.Load() != nil {
+			res.Violations = append(res.Violations, *w.panicked.Load())
+			w.log.Add("PANIC %s", w.panicked.Load().Key)
 			w.log.Cut("panic")
 		}
-		if raceBuild && w.loop && !w.dead && w.cur != nil && len(w.cur.keys) > 0 {
+		if raceBuild && w.loop && !w.dead.Load() && w.cur != nil && len(w.cur.keys) > 0 {
 			w.storm()
-			if w.panicked != nil {
-				res.Violations = append(res.Violations, *w.panicked)
-				w.log.Add("PANIC %s", w.panicked.Key)
+			if w.panicked.Load() != nil {
+				res.Violations = append(res.Violations, *w.panicked.Load())
+				w.log.Add("PANIC %s", w.panicked.Load().Key)
 				w.log.Cut("panic during the storm")
 			}
 		}
@@ -1843,7 +1851,7 @@ func (h procHarness) execOnce(p *simkit.Program) (*simkit.Result, *world) {
 		defer func() {
 			if r := recover(); r != nil {
 				msg := fmt.Sprint(r)
-				if strings.Contains(msg, "deadlock") && (w.panicked != nil || len(res.Violations) > 0) {
+				if strings.Contains(msg, "deadlock") && (w.panicked.Load() != nil || len(res.Violations) > 0) {
 					return
 				}
 				res.HarnessErr = "bubble: " + msg
